@@ -442,10 +442,11 @@ def ref_len(a, facts, r, point):
 
 
 class Discharger:
-    def __init__(self, rep, facts, reach):
+    def __init__(self, rep, facts, reach, rule='R13.3'):
         self.rep = rep
         self.facts = facts
         self.reach = reach
+        self.rule = rule
         self.append_helpers = set()
         self.chain_sites = set()        # (body key, block) of append-helper calls that belong to a verified chain
         self.chain_ok = True
@@ -483,7 +484,7 @@ class Discharger:
                     self.chain_sites.add((key, site[0]))
                 fits = ok and total <= N
                 self.chain_ok = self.chain_ok and fits
-                rep.check(fits, 'R13.3', key, 'D4:concat-capacity#%d' % len([1 for x in rep.obligations if x['fn'] == key and 'D4:concat-capacity' in x['instance']]),
+                rep.check(fits, self.rule, key, 'D4:concat-capacity#%d' % len([1 for x in rep.obligations if x['fn'] == key and 'D4:concat-capacity' in x['instance']]),
                           'buffer of %s bytes, maximal piece sizes over all impls: %s = %s' % (N, ' + '.join(desc), total if ok else '?'),
                           'the concatenation buffer holds the largest possible pieces (no slice-index panic inside the append helper)', where(a, a.term_point(bi)))
         # all calls of the append helpers are part of a verified chain
@@ -492,7 +493,7 @@ class Discharger:
                 for bi, t, c in a.calls(lambda c: (c.get('key') == h)):
                     if (key, bi) not in self.chain_sites:
                         self.chain_ok = False
-                        rep.bad('R13.3', key, 'D4:append-outside-chain', 'call of %s outside a recognised concat chain' % h,
+                        rep.bad(self.rule, key, 'D4:append-outside-chain', 'call of %s outside a recognised concat chain' % h,
                                 'every use of the append helper is capacity-checked', where(a, a.term_point(bi)))
         return n
 
